@@ -319,7 +319,7 @@ func (st *hlStats) nontrivial(hl HL, nlocs int) bool {
 
 func inputClass(text []byte, locs []Loc) string {
 	var cl []string
-	if bytes.Contains(text, []byte("�")) {
+	if bytes.Contains(text, []byte("\uFFFD")) {
 		cl = append(cl, "u+fffd")
 	}
 	for i := range locs {
